@@ -109,4 +109,36 @@ theorem hmEvenExcluded_odd (shape bshape : List Nat) (p : List Int) (hodd : ∀ 
         have : (b % 2 == 0) = false := by rw [hb]; rfl
         rw [this]; rfl
 
+/-- when the template fits at `p`, every entry of the template lies over a pixel of the image -/
+theorem templateInside_reads (shape bshape : List Nat) (p u : List Int)
+    (hl1 : bshape.length = shape.length) (hl2 : p.length = shape.length)
+    (ht : templateInside shape bshape p = true) (hu : inside bshape u = true) :
+    inside shape (addPos p (subPos u (centreOf bshape))) = true := by
+  induction shape generalizing bshape p u with
+  | nil =>
+    cases bshape with
+    | nil =>
+      cases p with
+      | nil => cases u <;> simp_all [inside, addPos, subPos, centreOf]
+      | cons _ _ => simp at hl2
+    | cons _ _ => simp at hl1
+  | cons n ns ih =>
+    cases bshape with
+    | nil => simp at hl1
+    | cons b bs =>
+      cases p with
+      | nil => simp at hl2
+      | cons x xs =>
+        cases u with
+        | nil => simp [inside] at hu
+        | cons y ys =>
+          rw [templateInside_cons] at ht
+          simp only [Bool.and_eq_true, decide_eq_true_eq] at ht
+          simp only [inside, Bool.and_eq_true, decide_eq_true_eq] at hu
+          have := ih bs xs ys (by simpa using hl1) (by simpa using hl2) ht.2 hu.2
+          simp only [centreOf] at this
+          simp only [centreOf, List.map_cons, subPos, addPos, inside, this, Bool.and_true,
+            Bool.and_eq_true, decide_eq_true_eq]
+          omega
+
 end Mahotas.C14
